@@ -101,6 +101,11 @@ static void on_fault(int s, siginfo_t *si, void *ucv) {
   int inside = rip >= CODE_AT && rip < CODE_AT + (uint64_t)cur->len;
   if (s == SIGTRAP) { out.kind = 0; out.rip = rip - 1; }                 /* int3 reached: control is at rip-1 */
   else if (s == SIGSEGV && !inside && out.addr == rip) out.kind = 0;     /* fetch fault at a branch target */
+  else if ((s == SIGILL || s == SIGBUS || s == SIGSEGV) && rip == CODE_AT + (uint64_t)cur->len + 1) {
+    /* the instruction completed and the int3 after it was executed, but the trap could not be delivered
+       normally (the instruction left a non-canonical rsp): the context still holds the post-state */
+    out.kind = 0; out.rip = rip - 1;
+  }
   else out.kind = 1;
   siglongjmp(env, 1);
 }
